@@ -359,6 +359,10 @@ class Tr:
                     parts.append(f"decide ({self.coerce(left, tl, t)} {sym} {self.coerce(right, tr, t)})")
                 left, tl = right, tr
             return ("(" + " && ".join(parts) + ")" if len(parts) > 1 else f"({parts[0]})"), BOOL
+        if isinstance(node, ast.BoolOp) and len(node.values) > 2 and isinstance(node.op, ast.And):
+            # a and b and c  ==  a and (b and c)
+            rest = ast.BoolOp(op=ast.And(), values=list(node.values[1:]))
+            return self.expr(ast.BoolOp(op=ast.And(), values=[node.values[0], rest]), env)
         if isinstance(node, ast.BoolOp) and len(node.values) == 2:
             # `X is None or P(X)` / `X is not None and P(X)`: P sees X as a plain value
             env0 = dict(env)
@@ -1327,6 +1331,15 @@ SPECS = [
          outputs=["cols", "rows"], output_types={"cols": RAT, "rows": RAT},
          select=_from_stmt("cols = ll2cr_result[0]", upto="weights = np.zeros(subdef.shape, dtype=weights_dtype)"),
          post_guard=["subdef = target_geo_def[y_slice, x_slice]"], owners=["C08", "C18"]),
+    dict(name="ewa_rows_per_scan", file="pyresample/ewa/dask_ewa.py", func="DaskEWAResampler._get_rows_per_scan", raises=True,
+         params=[("rows_per_scan", opt(INT)), ("has_xr", BOOL), ("lons_is_dataarray", BOOL), ("attr_rows_per_scan", opt(INT)), ("swath_rows", INT)],
+         expr_params={"xr is not None": "has_xr", "isinstance(self.source_geo_def.lons, xr.DataArray)": "lons_is_dataarray",
+                      "self.source_geo_def.lons.attrs.get('rows_per_scan')": "attr_rows_per_scan", "self.source_geo_def.shape[0]": "swath_rows"},
+         returns=INT, select=_whole, owners=["C08"]),
+    dict(name="ewa_chunk_rows", file="pyresample/ewa/dask_ewa.py", func="DaskEWAResampler._new_chunks", mode="fragment",
+         params=[("auto_rows", INT), ("rows_per_scan", INT)], expr_params={"auto_chunks[0][0]": "auto_rows"},
+         outputs=["chunk_rows"], output_types={"chunk_rows": INT}, select=_assignments_to("chunk_rows"),
+         post_guard=["return {0: chunk_rows, 1: num_cols}"], owners=["C08"]),
     # ---- C20 -----------------------------------------------------------------------------------
     dict(name="cf_axis_info", file="pyresample/utils/cf.py", func="_load_cf_axis_info", mode="fragment",
          params=[("first", RAT), ("last", RAT), ("nb", INT)], outputs=["delta", "spacing", "sign"],
